@@ -113,4 +113,26 @@ theorem C13_response_edits_keep_unnamed (es : List HeaderEdit) (fs : List Field)
     (h : ∀ e ∈ es, e.drops = true → fieldKeyLower f ≠ some (lower e.key)) : f ∈ applyEdits es fs :=
   applyEdits_keeps es fs f hf h
 
+/-- **Request-side frontend edits act on all copies** (model of
+    `mux/router.rs::apply_request_rewrites_and_headers`). For every rewrite
+    configuration, every list of per-frontend request edits and every header
+    block list — any number of copies of any header, in any case: (1) a
+    header the backend receives under a name some edit deletes is one the
+    router itself inserted (so the delete + set "replace" idiom leaves exactly
+    the operator's value); (2) with `rewrite_host`, every `Host` and
+    `X-Forwarded-Host` the backend receives is router-generated — no client
+    copy survives; (3) a header no rule names is never removed. -/
+theorem C13_request_edits_all_copies (rh og rp : Option Bytes) (edits : List ReqEdit) (fs : List Field) :
+    (∀ e ∈ edits, e.val = [] → ∀ f ∈ routerPass rh og rp edits fs, isHdrNamed e.key f = true →
+        f ∈ reqInserted rh og edits) ∧
+    (rh.isSome = true → ∀ f ∈ routerPass rh og rp edits fs,
+        (isHdrNamed sHost f = true ∨ isHdrNamed sXFHost f = true) → f ∈ reqInserted rh og edits) ∧
+    (∀ f ∈ fs, (∀ n ∈ reqDropKeys rh.isSome edits, fieldKeyLower f ≠ some n) → f ∈ routerPass rh og rp edits fs) :=
+  request_edits_all_copies rh og rp edits fs
+
+/-- three client copies of a deleted-and-set header, two forged X-Forwarded-Host: only the router's remain -/
+example : routerPass (some [98]) (some [97]) none [⟨sXFProto, []⟩, ⟨sXFProto, sHttps⟩]
+      [.hdr sXFProto sHttp, .hdr cXFHost [101], .hdr [120] [49], .hdr cXFProto sHttp, .hdr sXFHost [102], .hdr sXFProto [103]]
+    = [.hdr [120] [49], .hdr cHost [98], .hdr cXFHost [97], .hdr sXFProto sHttps] := by decide
+
 end Sozu.Headers
